@@ -163,7 +163,7 @@ class Plane(GeoBody):
             self.p.move(v)
             return Plane(self.p, self.n)
         else:
-            return NotImplementedError(
+            raise NotImplementedError(
                 "The second parameter for move function must be Vector"
             )
 
